@@ -66,6 +66,8 @@ class Fn:
         self.ret = None
         self.outs = {}     # scalar out-pointer parameters: name -> (w, signed)
         self.mode = None   # None: the function's return value; a name: the final value of that out parameter
+        self.pending = []  # (lean variable, type, term): locals written through `&x` by the call just translated
+        self.uninit = {}   # locals declared without initialiser: their indeterminate value is an extra parameter `u_x`
 
     # ---- expressions: return (lean_term, (w, signed), [definedness conditions]) ----
     def cast(self, term, src, dst):
@@ -142,6 +144,15 @@ class Fn:
             while callee["kind"] in ("ImplicitCastExpr", "ParenExpr"):
                 callee = callee["inner"][0]
             fname = callee["referencedDecl"]["name"]
+            if fname != "__builtin_clzll":
+                self.tr.require(fname)
+                info = self.tr.fninfo.get(fname)
+                if info is None:
+                    raise Unsupported(f"recursive call of {fname}")
+                if info["uninit"]:
+                    raise Unsupported(f"call of {fname}, which has uninitialised locals")
+                if info["outs"]:
+                    return self.call_with_outs(n, fname, info)
             args = [self.expr(a) for a in n["inner"][1:]]
             conds = [c for (_, _, cs) in args for c in cs]
             to = tinfo(ctype(n))
@@ -236,6 +247,44 @@ class Fn:
     def var(self, name):
         return "v_" + name
 
+    def call_with_outs(self, n, fname, info):
+        """call of a translated function that has scalar out parameters: each such argument must be `&x` for a
+        scalar variable x of this function; x takes the callee's `<fn>_out_<p>` result afterwards"""
+        terms, conds, outs = [], [], []
+        for a, (pname, pt, is_out) in zip(n["inner"][1:], info["params"]):
+            if not is_out:
+                t, ti, c = self.expr(a)
+                terms.append(self.cast(t, ti, pt) if ti != pt else t)
+                conds += c
+                continue
+            x = a
+            while x["kind"] in ("ParenExpr", "ImplicitCastExpr"):
+                x = x["inner"][0]
+            if x["kind"] != "UnaryOperator" or x.get("opcode") != "&":
+                raise Unsupported(f"out argument of {fname} that is not &variable")
+            nm, tl = self.lhs(x["inner"][0])
+            if tl != pt:
+                raise Unsupported("out argument type")
+            terms.append(nm)
+            outs.append((nm, tl, pname))
+        argstr = " ".join(terms)
+        ln = self.tr.lean_name(fname)
+        conds.append(f"({ln}_defined {argstr})")
+        for nm, tl, pname in outs:
+            self.pending.append((nm, tl, f"({ln}_out_{pname[2:]} {argstr})"))
+        if info["ret"] is None:
+            return "()", None, conds
+        return f"({ln} {argstr})", info["ret"], conds
+
+    def take_pending(self):
+        p, self.pending = self.pending, []
+        return p
+
+    def no_pending(self, where):
+        if self.pending:
+            self.pending = []
+            raise Unsupported(f"call with &variable arguments in {where}")
+
     def out_name(self, n):
         """n is `*p` (possibly parenthesised) with p an out parameter -> its name"""
         while n["kind"] == "ParenExpr":
@@ -313,6 +362,7 @@ class Fn:
                     raise Unsupported("void return in value mode")
                 return "o_" + self.mode, "true"
             t, ti, c = self.expr(s["inner"][0])
+            self.no_pending("a return expression")
             t = self.cast(t, ti, self.ret)
             if self.mode is not None:
                 t = "o_" + self.mode
@@ -327,7 +377,12 @@ class Fn:
                     self.add_table(d)
                     continue
                 if "inner" not in d:
-                    raise Unsupported(f"uninitialised local {d['name']}")
+                    # indeterminate value: an extra parameter of the translated function, universally quantified in
+                    # every theorem about it
+                    to = tinfo(ctype(d))
+                    self.uninit[d["name"]] = to
+                    binds.append((self.var(d["name"]), to, "u_" + d["name"], [], []))
+                    continue
                 init = d["inner"][0]
                 while init["kind"] == "ParenExpr":
                     init = init["inner"][0]
@@ -342,11 +397,13 @@ class Fn:
                 t, ti, c = self.expr(d["inner"][0])
                 to = tinfo(ctype(d))
                 t = self.cast(t, ti, to)
-                binds.append((self.var(d["name"]), to, t, c))
+                binds.append((self.var(d["name"]), to, t, c, self.take_pending()))
             v, dfn = self.block(rest)
-            for (nm, to, t, c) in reversed(binds):
-                v = f"let {nm} : BitVec {to[0]} := {t}\n{v}"
-                dfn = f"{conj(c)} &&\n(let {nm} : BitVec {to[0]} := {t}\n{dfn})"
+            for (nm, to, t, c, pend) in reversed(binds):
+                pre = "".join(f"let t_{pn} : BitVec {pt[0]} := {ptm}\n" for pn, pt, ptm in pend)
+                post = "".join(f"let {pn} : BitVec {pt[0]} := t_{pn}\n" for pn, pt, ptm in pend)
+                v = f"{pre}let {nm} : BitVec {to[0]} := {t}\n{post}{v}"
+                dfn = f"{conj(c)} &&\n({pre}let {nm} : BitVec {to[0]} := {t}\n{post}{dfn})"
             return v, dfn
         if k in ("BinaryOperator", "CompoundAssignOperator"):
             nm, tl = self.lhs(s["inner"][0])
@@ -363,9 +420,20 @@ class Fn:
                 a = self.cast(nm, tl, cl)
                 t, ti, c = self.binop(op, a, cl, b, tb, cr, [], cb)
                 t = self.cast(t, ti, tl)
+            pend = self.take_pending()
+            pre = "".join(f"let t_{pn} : BitVec {pt[0]} := {ptm}\n" for pn, pt, ptm in pend)
+            post = "".join(f"let {pn} : BitVec {pt[0]} := t_{pn}\n" for pn, pt, ptm in pend)
             v, dfn = self.block(rest)
-            return (f"let {nm} : BitVec {tl[0]} := {t}\n{v}",
-                    f"{conj(c)} &&\n(let {nm} : BitVec {tl[0]} := {t}\n{dfn})")
+            return (f"{pre}let {nm} : BitVec {tl[0]} := {t}\n{post}{v}",
+                    f"{conj(c)} &&\n({pre}let {nm} : BitVec {tl[0]} := {t}\n{post}{dfn})")
+        if k == "CallExpr":
+            # call as a statement: only its effects through `&x` arguments remain
+            t, ti, c = self.expr(s)
+            pend = self.take_pending()
+            pre = "".join(f"let t_{pn} : BitVec {pt[0]} := {ptm}\n" for pn, pt, ptm in pend)
+            post = "".join(f"let {pn} : BitVec {pt[0]} := t_{pn}\n" for pn, pt, ptm in pend)
+            v, dfn = self.block(rest)
+            return f"{pre}{post}{v}", f"{conj(c)} &&\n({pre}{post}{dfn})"
         if k == "ForStmt":
             # for (init; cond; inc) body  with a bounded trip count: unrolled `--unroll fn=N` times; running out of
             # unrollings makes `<fn>_defined` false, so "N suffices for every input" is a theorem about the translation
@@ -391,6 +459,7 @@ class Fn:
                 w = self.outs[self.mode][0] if self.mode is not None else self.ret[0]
                 return lit(0, w), "false"
             c0, tc, cc = self.expr(s["cond"])
+            self.no_pending("a loop condition")
             cond = f"({c0} != {lit(0, tc[0])})"
             nxt = dict(s); nxt["n"] = s["n"] - 1
             tv, td = self.block([s["body"], s["inc"], nxt] + rest)
@@ -443,6 +512,7 @@ class Fn:
         if k == "IfStmt":
             inner = s["inner"]
             c0, tc, cc = self.expr(inner[0])
+            self.no_pending("an if condition")
             cond = f"({c0} != {lit(0, tc[0])})"
             then = inner[1]
             els = inner[2] if len(inner) > 2 else None
@@ -539,7 +609,6 @@ class Fn:
         if body is None:
             raise Unsupported("no body")
         ln = self.tr.lean_name(self.name)
-        ps = " ".join(f"({p} : BitVec {t[0]})" for p, t in self.params)
         out = []
         variants = []
         if self.ret is not None:
@@ -553,6 +622,11 @@ class Fn:
         self.mode = None
         if not variants:
             raise Unsupported("function without a result")
+        ps = " ".join(f"({p} : BitVec {t[0]})" for p, t in self.params + [("u_" + u, t) for u, t in self.uninit.items()])
+        self.tr.fninfo[self.name] = {
+            "params": [(p, t, p.startswith("o_")) for p, t in self.params],
+            "outs": [p[2:] for p, t in self.params if p.startswith("o_")],
+            "ret": self.ret, "uninit": list(self.uninit)}
         for an, (ew, vals) in self.tables.items():
             # index type is not known here: emit for 32-bit index (int promotions)
             chain = ""
@@ -613,6 +687,10 @@ def assigned(fn, s, out, local):
         nm, ti = fn.lhs(s["inner"][0])
         if nm not in local:
             out[nm] = ti
+    if k == "UnaryOperator" and s.get("opcode") == "&":
+        nm, ti = fn.lhs(s["inner"][0])
+        if nm not in local:
+            out[nm] = ti
     for c in s.get("inner", []):
         assigned(fn, c, out, local)
 
@@ -655,6 +733,7 @@ class Translator:
         self.rename = {}
         self.unroll = {}
         self.global_tables = {}   # "<array>_<field>" -> (elemwidth, [values])
+        self.fninfo = {}
         self.full = {}
 
     def lean_name(self, cname):
